@@ -287,4 +287,4 @@ def run(ctx):
     if ctx.tier == 'quick':
         core.run_sharded(ctx, __name__, 'shard', 4, (120, 4))
     else:
-        core.run_sharded(ctx, __name__, 'shard', getattr(ctx, 'shards_override', None) or 16, (3000, 40))
+        core.run_sharded(ctx, __name__, 'shard', getattr(ctx, 'shards_override', None) or 16, (1500, 30))
